@@ -216,11 +216,14 @@ static size_t pick_stride(_Bool zero_ok, _Bool cells) {
   __CPROVER_assume(SMALLS(st) && (zero_ok || st != 0) && (!cells || st % 8 == 0));
   return st;
 }
-/* bytes needed by an array whose items of w bytes lie st bytes apart, plus arbitrary slack */
-static long pick_size(size_t st, long w) {
+/* bytes needed by an array whose items of w bytes lie st bytes apart (st: one of the stride ghosts, used when `given`),
+   plus arbitrary slack.  A macro, so that every product is the same expression over the same ghosts: CBMC then
+   builds ONE multiplier for it (two multipliers over equal-but-distinct inputs are a hard SAT problem) */
+#define NEED(given, st, w) (((given) && (st) != 0 && g_hb != 0) ? PROD(g_hb - 1, st) + (w) : (w))
+static long pick_slack(void) {
   long extra = nondet_long();
   __CPROVER_assume(0 <= extra && extra <= SLACK);
-  return ((st == 0 || g_hb == 0) ? w : PROD(g_hb - 1, st) + w) + extra;
+  return extra;
 }
 static void setup(void) {
   /* strides: args / attrs any; funcs 0 (one shared function) or aligned cells; results / ids aligned cells */
@@ -234,8 +237,9 @@ static void setup(void) {
   __CPROVER_assume(0 <= g_w && 0 <= g_ha && g_ha <= g_hb && g_hb <= LONG_MAX / 2);
   if (g_as != 0 || g_fs != 0 || (with_attrs && g_ts != 0) || with_res || with_ids) __CPROVER_assume(SMALLN(g_hb) && SMALLN(g_ha));
   /* user memory: five dynamic objects of symbolic size (malloc(n * sizeof(T)) gives an array of n cells of type T) */
-  g_na = pick_size(g_as, 1); g_nt = pick_size(with_attrs ? g_ts : 0, 1);
-  g_nf = pick_size(g_fs, 8) / 8 + 1; g_nr = pick_size(with_res ? g_rs : 0, 8) / 8 + 1; g_ni = pick_size(with_ids ? g_is : 0, 8) / 8 + 1;
+  g_na = NEED(1, g_as, 1) + pick_slack(); g_nt = NEED(with_attrs, g_ts, 1) + pick_slack();
+  g_nf = (NEED(1, g_fs, 8) + pick_slack()) / 8 + 1; g_nr = (NEED(with_res, g_rs, 8) + pick_slack()) / 8 + 1;
+  g_ni = (NEED(with_ids, g_is, 8) + pick_slack()) / 8 + 1;
   ARGS = malloc((size_t)g_na); ATTRS = malloc((size_t)g_nt);
   FUNCS = malloc((size_t)g_nf * sizeof(myth_func_t)); RES = malloc((size_t)g_nr * sizeof(void *)); IDS = malloc((size_t)g_ni * sizeof(myth_thread_t));
   __CPROVER_assume(ARGS != 0 && ATTRS != 0 && FUNCS != 0 && RES != 0 && IDS != 0);
@@ -247,16 +251,19 @@ static void setup(void) {
   g_wic = (w_in && with_ids) ? PROD(g_w, g_is) / 8 : 0;
   /* lemma instances: the witness lies below the last item */
   if (w_in) __CPROVER_assume(MONO(g_w, g_hb - 1, g_as) && MONO(g_w, g_hb - 1, g_rs) && MONO(g_w, g_hb - 1, g_is));
+  /* cut: the witness cells lie inside the arrays (proved here once from the lemma instances, then used as a fact) */
+  __CPROVER_assert(0 <= g_wrc && g_wrc < g_nr && 0 <= g_wic && g_wic < g_ni, "C17 universe: the slots of the witness item lie inside the arrays");
+  __CPROVER_assume(0 <= g_wrc && g_wrc < g_nr && 0 <= g_wic && g_wic < g_ni);
   /* guard cells: any cell of RES / IDS, written as (item number, offset within the stride) */
   g_gri = g_grd = g_gii = g_gid = 0; g_grc = nondet_long(); g_gic = nondet_long();
   if (with_res) {
     g_gri = nondet_long(); g_grd = nondet_long();
-    __CPROVER_assume(SMALLN(g_gri) && 0 <= g_grd && g_grd < (long)g_rs && g_grd % 8 == 0);
+    __CPROVER_assume(0 <= g_gri && SMALLN(g_gri) && 0 <= g_grd && g_grd < (long)g_rs && g_grd % 8 == 0);
     g_grc = (PROD(g_gri, g_rs) + g_grd) / 8;
   }
   if (with_ids) {
     g_gii = nondet_long(); g_gid = nondet_long();
-    __CPROVER_assume(SMALLN(g_gii) && 0 <= g_gid && g_gid < (long)g_is && g_gid % 8 == 0);
+    __CPROVER_assume(0 <= g_gii && SMALLN(g_gii) && 0 <= g_gid && g_gid < (long)g_is && g_gid % 8 == 0);
     g_gic = (PROD(g_gii, g_is) + g_gid) / 8;
   }
   __CPROVER_assume(0 <= g_grc && g_grc < g_nr && 0 <= g_gic && g_gic < g_ni);
@@ -274,12 +281,12 @@ static void setup(void) {
 void h_aux(void) {
   setup();
   __CPROVER_assume(g_ha < g_hb);
-  /* f_i is what the table holds (definition); instance for the one slot this call can read itself */
-  __CPROVER_assume(FUNCSLOT(g_ha) == ((g_fs == 0 || g_ha == g_w) ? F_watch : F_other));
   /* lemma instances (distinct items have disjoint slots; the last item bounds every item) */
   __CPROVER_assume(MONO(g_ha, g_hb - 1, g_fs) && MONO(g_ha, g_hb - 1, g_rs) && MONO(g_ha, g_hb - 1, g_is));
   __CPROVER_assume(g_w < g_hb ==> (MONO(g_ha, g_w, g_as) && MONO(g_ha, g_w, g_rs) && MONO(g_ha, g_w, g_is)));
   __CPROVER_assume(MONO(g_ha, g_gri, g_rs) && MONO(g_ha, g_gii, g_is));
+  /* f_i is what the table holds (definition); instance for the one slot this call can read itself */
+  __CPROVER_assume(FUNCSLOT(g_ha) == ((g_fs == 0 || g_ha == g_w) ? F_watch : F_other));
   H_ARG.ids = g_ids; H_ARG.attrs = g_attrs; H_ARG.funcs = (void *)FUNCS; H_ARG.args = (void *)ARGS; H_ARG.results = g_res;
   H_ARG.id_stride = g_is; H_ARG.attr_stride = g_ts; H_ARG.func_stride = g_fs; H_ARG.arg_stride = g_as; H_ARG.result_stride = g_rs;
   H_ARG.a = g_ha; H_ARG.b = g_hb;
